@@ -4,10 +4,18 @@ Random enum/flag declarations (gaps, duplicates, expressions over earlier member
 integer type).  Oracles: an independent numbering function written here; value preservation against int.from_bytes;
 equality/hash semantics stated directly.  The Lean model's numbering fold (`enumvals`) and its enum read/write are compared
 with the real classes.
+
+Alias probes (harness/t3_c12.py) for "members compare equal to their integer value and to same-class members with that
+value": enum and flag declarations built so that several members name one value (repeated literal, name of an earlier
+member, expression landing on an earlier value, implicit member colliding with an explicit one, zero named twice, composite
+flag values named by several members); the equality laws (`a == b`, `b == a`, `!=` both ways) are evaluated between every
+pair of members of the class, between members and their integers, and between every member and the objects obtained from
+data for a value (scalar, `E[2]` element, structure field / array element / bit-field, interpreted and compiled, `E(int)`,
+`a | b`); objects parsed for one underlying value must be mutually equal with equal hashes.
 """
 from __future__ import annotations
 
-from .. import common, impl
+from .. import common, impl, t3_c12
 from ..common import A, Case, Result, mkrng, parse_sexp, run_driver, sx
 
 BASES = {"uint8": (1, False), "int8": (1, True), "uint16": (2, False), "int16": (2, True), "uint32": (4, False), "int32": (4, True),
@@ -60,7 +68,10 @@ def run(env) -> Result:
     res.rule = ("seeded random enum and flag declarations over 11 underlying integer types with implicit members, gaps, duplicates, literals in "
                 "all spellings, expressions over earlier members and a constant; per declaration: member table vs independent numbering oracle vs "
                 "Lean model; value preservation for boundary/random underlying values as scalar, array and bit-field; equality and hash laws "
-                "incl. cross-class comparisons. distinct = (declaration, value); non-trivial = >= 2 members")
+                "incl. cross-class comparisons; declarations with values named by several members (aliases by literal, name, expression, "
+                "implicit numbering; zero and composite flag values): == / != in both directions between every pair of members, members and "
+                "ints, members and values obtained from data (scalar, array element, struct field, bit-field, E(int), a | b), equal hashes "
+                "for parses of one underlying value. distinct = (declaration, value); non-trivial = >= 2 members")
     dc = impl.dc()
     rnd = mkrng(env["seed"], "c12")
     tier = env["tier"]
@@ -152,6 +163,8 @@ def run(env) -> Result:
             res.feat("in-structure")
         except Exception as e:  # noqa: BLE001
             viol(f"structure with enum fields raises {type(e).__name__}: {e}", dict(data, bytes=raw.hex()), "F22" if (is_flag and signed) else None)
+    # declarations with aliases: equality laws between same-valued members and values obtained from data (own PRNG stream)
+    t3_c12.alias_probes(mkrng(env["seed"], "c12-alias"), res, viol, dc, tier, oracle_numbering)
     # cross-class comparisons: never equal, whatever the kinds and values
     for _ in range(200 if tier == "quick" else 3000):
         (E1, f1, b1, _, i1), (E2, f2, b2, _, i2) = rnd.sample(classes, 2) if len(classes) >= 2 else (classes[0], classes[0])
@@ -177,5 +190,13 @@ def run(env) -> Result:
 
 
 def replay(body) -> int:
-    print("replay:", body.get("what"), body.get("case"))
+    c = body.get("case") or {}
+    print("replay:", body.get("what"), c)
+    if c.get("repro"):
+        impl.dc()
+        print("replay: running the recorded declaration and value on the library")
+        try:
+            exec(compile(c["repro"], "<replay>", "exec"), {})  # noqa: S102
+        except Exception as e:  # noqa: BLE001
+            print(f"replay: raises {type(e).__name__}: {e}")
     return 0
